@@ -1748,7 +1748,7 @@ class SQLiteCompiler(compiler.SQLCompiler):
             where_kw = dict(kw)
             where_kw.update(include_table=True, use_schema=False)
             action_text += " WHERE %s" % self.process(
-                clause.update_whereclause, **where_kw
+                clause.update_whereclause, is_upsert_set=True, **where_kw
             )
 
         return "ON CONFLICT %s DO UPDATE SET %s" % (target_text, action_text)
